@@ -47,7 +47,7 @@ def project(path, lines, names):
     return n
 
 
-def run_repo_tests(wd, max_events=40000):
+def run_repo_tests(wd, max_events=4000):
     """Returns (lines, stats) or raises Inconclusive."""
     env = dict(os.environ, GOFLAGS="-mod=mod", GOPROXY="off", GOSUMDB="off", GOTOOLCHAIN="local")
     out = os.path.join(wd, "repotests")
@@ -97,10 +97,10 @@ def validate(lines, wd, name="StoreTrace"):
     return r
 
 
-def phase(wd, info):
+def phase(wd, info, max_events=4000):
     """Run, validate, self-test the binding; returns a list of drift strings (empty when the recorded tests conform)."""
     t0 = time.time()
-    lines, stats = run_repo_tests(wd)
+    lines, stats = run_repo_tests(wd, max_events)
     if sum(s["events"] for s in stats) < 100:
         raise Inconclusive("the repository's tests produced almost no storage events under the verif tag: %s" % stats)
     r = validate(lines, wd)
